@@ -599,3 +599,29 @@ def lev_pred(x, y):
 
 def ham_pred(x, y):
     return None
+
+
+def bucket_pos(d, p):
+    return -1
+
+
+def enum_pos(lst, x):
+    return -1
+
+
+def cand_triplets(i, cand, seqs, pred, val):
+    return [(i, j, val(seqs[i], seqs[j])) for j in cand if j != i and pred(seqs[i], seqs[j])]
+
+
+def all_cand_triplets(y_indices, seqs, pred, val):
+    return [(i, j, val(seqs[i], seqs[j])) for i, c in enumerate(y_indices) for j in c if j != i and pred(seqs[i], seqs[j])]
+
+
+def hist_vec(s, c):
+    return None
+
+
+def cnt(s, t, b, comp):
+    AAs = "ACDEFGHIKLMNPQRSTVWY"
+    import math
+    return sum(1 for p in range(int(t)) if math.floor(AAs.index(s[p]) / comp) == b)
